@@ -33,7 +33,7 @@ COMPONENTS = {"real": ["setigen.voltage (Antenna, MultiAntennaArray, DataStream,
 ASSUMPTIONS = ["the antenna voltage stream is what get_samples returned (C10/C15 judge the antenna itself)",
                "+-1 tolerated iff the reference pre-rounding value is within 1e-7 of a rounding boundary (FFT vs direct DFT)",
                "a run whose digitiser input sits within 1e-9 of a rounding boundary is not value-judged (counted as tie)"]
-PROBES = ["last_subblock_shorter", "num_subblocks_adjusted", "subblocks_exceed_windows", "multi_file_last_partial",
+PROBES = ["predecessor_in_same_process", "predecessor_same_coefficients_other_split", "last_subblock_shorter", "num_subblocks_adjusted", "subblocks_exceed_windows", "multi_file_last_partial",
           "retry_after_fault", "partition_twin_compared", "collect_vs_record", "four_bit", "array_source",
           "stats_refresh_mid_recording", "retry_over_leftover_files"]
 
@@ -67,6 +67,11 @@ def generate(rng, tier):
     sc = {"seams": {"clock_origin": 1.7e9 + rng.randrange(10 ** 6), "clock_jitter_seed": rng.randrange(1 << 20),
                     "entropy_salt": rng.randrange(1 << 20), "scratch": "c02"},
           "ant": ant, "el": el, "be": be, "ops": ops, "common_prefix": common}
+    if rng.random() < 0.25:
+        # a predecessor in the same process: a near twin of this configuration (one parameter changed) is built and
+        # records a block before the scenario proper.  Anything memoised under too coarse a key is then handed on.
+        what = rng.choice(["split", "split", "window", "bits", "seed"])
+        sc["predecessor"] = {"what": what, "digitize": rng.random() < 0.6}
     if common:
         alts = []
         for _ in range(rng.choice([2, 3, 4])):
@@ -223,6 +228,33 @@ def execute(sc, ctx):
         ctx.hit("four_bit")
     if ant["kind"] == "array":
         ctx.hit("array_source")
+    pre = sc.get("predecessor")
+    if pre:
+        el0, ant0, be0 = copy.deepcopy(el), copy.deepcopy(ant), copy.deepcopy(be)
+        T, B = el0["T"], el0["B"]
+        if pre["what"] == "split":
+            # same number of coefficients, other taps/branches split; the block still holds whole windows
+            for t in (2 * T, T // 2, 4 * T):
+                if t >= 1 and (T * B) % t == 0 and (T * B // t) % 2 == 0 and T * B // t >= 2 * (be0["start_chan"] + be0["num_chans"]) \
+                        and be0["spb"] % t == 0:
+                    el0["T"], el0["B"] = t, T * B // t
+                    ctx.hit("predecessor_same_coefficients_other_split")
+                    break
+        elif pre["what"] == "window":
+            el0["window"] = {"hamming": "hann", "hann": "blackman", "blackman": "boxcar", "boxcar": "hamming"}.get(el0["window"], "hann")
+        elif pre["what"] == "bits" and el0["bits"] == 8 and be0["block_size"] % 2 == 0 and (be0["spb"] * 2) % el0["T"] == 0:
+            el0["bits"] = 4
+        else:
+            ant0["seed"] = (ant0["seed"] + 1) % (1 << 30)
+        try:
+            a0 = W.build_antenna(ant0)
+            b0 = W.build_backend(a0, el0, be0)
+            b0.record(ctx.seams.path("pre"), num_blocks=1, length_mode="num_blocks", header_dict={}, digitize=pre["digitize"],
+                      verbose=False)
+            ctx.hit("predecessor_in_same_process")
+        except Exception as e:
+            # the variant is not a configuration the constructor admits: no predecessor then
+            ctx.hit("predecessor_not_admitted")
     antenna = W.build_antenna(ant)
     log = W.RequestLog(antenna, ctx)
     backend = W.build_backend(antenna, el, be)
